@@ -414,6 +414,11 @@ def run_job(job, tier, inc_extra, keep_dir=None):
             if res.loop_obligs < job.loops:
                 res.status, res.reason = 'undecided', 'vacuity guard: %d loop contracts visible, %d expected' % (res.loop_obligs, job.loops)
                 return res
+        real_fail = [f for f in res.failed if f['status'] == 'FAILURE' and '.unwind.' not in f['property'] and '.recursion' not in f['property']]
+        if res.failed and not real_fail and [f for f in res.failed if f['status'] == 'FAILURE']:
+            # only unwinding assertions failed: the bound of this job is too small for the code as it is now - a tool limit, never a verdict
+            res.status, res.reason = 'undecided', 'unwinding bound too small: ' + ', '.join(f['property'] for f in res.failed if f['status'] == 'FAILURE')[:200]
+            return res
         if res.failed:
             res.status = 'failed'
             # get a trace for the most telling failure
